@@ -7,7 +7,7 @@ For each property Cxx:
 
 A Case is a dict {"req": line, "stream": name, ...meta}.
 """
-import itertools, json, os, re
+import itertools, json, os, re, urllib.parse
 from purlgen import *
 
 REPO = os.environ.get("PURL_REPO", "/repo")
@@ -159,12 +159,18 @@ def st_token_sample(ctx, n, shapes, tokens, label="toksample", lo=3, hi=9):
 # ---------------------------------------------------------------- products of component classes
 
 KEL = "\u212a"
+# names as they appear in other tools' requirement / file syntaxes (none of this means anything to a PURL)
+ECO_NAMES = ["requests[security]", "Zope.Interface[Test_Extra]", "[Foo_Bar]x]", "a[b]c", "x[]", "django>=4.2", "numpy==1.26.*", "pkg~=1.0", "lodash@^4.17",
+             "left-pad@~1.3", "serde/derive", "tokio+full", "name; python_version<'3'", "egg#egg=foo", "Newtonsoft.Json.13.0.1.nupkg", "rails-7.0.gem",
+             "foo-1.0-py3-none-any.whl", "commons-io-2.11.jar", "a.tar.gz", "v1.2.3", "1.0.0-SNAPSHOT", "@types/node@18", "github.com/a/b/v2@v2.0.1",
+             "(group)", "{name}", "name*", "~user", "name!", "$name", "na,me", "name\\path", "\"quoted\"", "<angle>", "name|pipe", "`tick`", "^caret",
+             "name.git", "name.GIT", "lib.so.6", "pkg:npm/foo", "pkg%3Anpm", "file:///x", "C:\\x", "name ", " name", "na me", "name\t", "Name.Exe"]
 CLS_TYPE = ["t", "cargo", "gem", "golang", "maven", "npm", "nuget", "pypi", "deb"]
 CLS_NS = [[], ["acme"], ["@scope"], ["github.com", "phylum-dev"], ["%40scope%2Fevil"], ["\u00dcn\u00ef", "\u01c5" + KEL], ["a:b c&d=e"],
           ["x" * 30], ["g"], ["org.apache.commons", "sub+group"], ["example.org", "user", "repo.git", "cmd"],
           ["example.org", "repo.git", "..", "..", "etc"], [".", "a.git", "."]]
 CLS_NAME = ["name", "a/b", "%2Fetc", "tool.git", "n@m", "Foo_.-Bar", "\u039f\u0394\u039f\u03a3", "\u0130" + KEL + "-x", "100%25", "n" * 40, "g:a", "report%2520final",
-            "@types/node", "\u023a\u023a_", "a+b c"]
+            "@types/node", "\u023a\u023a_", "a+b c", "requests[security]", "Zope.Interface[Test_Extra]", "django>=4.2", "commons-io-2.11.jar"]
 CLS_VER = [None, "1.0", "1.0/beta", "v@1", "1.0.0-rc.1+build.5", "\u00fc1", "%2F%2e", "1.0?x#y"]
 CLS_QUALS = [
     ([], None),
@@ -206,6 +212,27 @@ def cls_indices(ctx, r):
             yield idx
 
 
+def echo_tuples(r):
+    """tuples whose components repeat one another (a subpath that spells namespace/name, a namespace equal to the
+    name, a version equal to the type, qualifiers named after components …): relations between components, which
+    independent draws practically never produce"""
+    out = []
+    bases = [(["github.com", "gorilla"], "mux", "v1.8.0"), (["a"], "b", "1"), (["org.apache"], "commons-io", "2.11"), (["@scope"], "pkg", "1.0.0"),
+             (["Foo_Bar"], "Foo_Bar", "Foo_Bar")]
+    for ty in CLS_TYPE:
+        for ns, name, ver in bases:
+            subs = [ns + [name, "middleware"], ns + [name], [name, "c"], list(ns), ns + [name + "x", "c"], ["x"] + ns + [name, "c"], [ty, name],
+                    [ver]]
+            for sub in subs:
+                out.append(Tuple(ty, list(ns), name, ver, [], sub, None))
+            out.append(Tuple(ty, [name], name, name, [], [name], None))
+            out.append(Tuple(ty, [ty], ty, ty, [("type", ty)], [ty], None))
+            out.append(Tuple(ty, list(ns), name, ver, [("name", name), ("namespace", "/".join(ns)), ("version", ver), ("subpath", "a/b"), ("type", ty)], [], None))
+            out.append(Tuple(ty, list(ns), name, ver, [("vcs_url", "git+https://%s/%s.git@%s" % ("/".join(ns), name, ver)),
+                                                       ("download_url", "pkg:%s/%s/%s@%s" % (ty, "/".join(ns), name, ver))], ns + [name], None))
+    return out
+
+
 def st_classes(ctx, shapes, label="classes"):
     """parse requests: legal spellings of tuples drawn from the product of component classes (realistic values:
     npm scopes, URLs with compound schemes, versions with '/', '+', '@', literal escapes, non-ASCII cased letters,
@@ -213,9 +240,9 @@ def st_classes(ctx, shapes, label="classes"):
     r = ctx.rng(label)
     out = []
     gid = 0
-    for idx in cls_indices(ctx, r):
+    tuples = [cls_tuple(r, idx, None) for idx in cls_indices(ctx, r)] + echo_tuples(r)
+    for t in tuples:
         sh = r.pick(shapes)
-        t = cls_tuple(r, idx, sh)
         gid += 1
         fr = default_freedoms(r)
         if r.chance(1, 2):
@@ -234,9 +261,9 @@ def st_classes_build(ctx, shapes, label="classes-build"):
     """the same product through the builder (values given un-normalised: extra / doubled / tripled slashes, dot pieces)"""
     r = ctx.rng(label)
     out = []
-    for idx in cls_indices(ctx, r):
+    tuples = [cls_tuple(r, idx, None) for idx in cls_indices(ctx, r)] + echo_tuples(r)
+    for t in tuples:
         sh = r.pick(shapes)
-        t = cls_tuple(r, idx, sh)
         tyl = t.ty.lower()
         if sh == "P":
             if tyl not in IDENT_OF:
@@ -526,7 +553,7 @@ def rand_quals_step(r, sep=":"):
         return J(["ins", k(), v()])
     if r.chance(1, 2):
         # try_insert_typed of a checksum that may be refused (odd / non-hex digits): then nothing may change
-        return J(["tit", hx(r.pick(["sha1", "MD5", "a:b", ""])), hx(r.pick(["00ff", "AB", "zz", "0", "", "0g"]))])
+        return J(["tit", hx(r.pick(["sha1", "MD5", "a:b", "", "sha1,md5", "a,b:c", ",", " x"])), hx(r.pick(["00ff", "AB", "zz", "0", "", "0g"]))])
     return J(["get", k()])
 
 
@@ -613,6 +640,9 @@ def st_qcmp(ctx, n, label="qcmp"):
 
 ALG_UNIVERSE = ["sha1", "SHA1", "Sha1", "md5", "MD5", "a", "A", "b", "a:b", "é", "É", "ǅ", "ǆ", "", "x y", "sha256",
                 "a:b c", "x:y&z=1", "s:h+1", "u:\u00fc", " md5", "md5 ", "\tsha1", "sha", "sha2", "sha2-256"]
+# algorithms containing ',' are outside C12's quantifier (their text cannot parse back) but inside C06's (no panic)
+ALG_COMMA = ["sha1,md5", "a,b", ",", "x,", ",:"]
+_ALG_EXTRA = []
 
 
 def rand_hexbytes(r):
@@ -621,7 +651,7 @@ def rand_hexbytes(r):
 
 
 def rand_cksum_step(r, asep=":", mutate_only=False):
-    a = lambda: hx(r.pick(ALG_UNIVERSE))
+    a = lambda: hx(r.pick(ALG_UNIVERSE + _ALG_EXTRA))
     J = asep.join
     c = r.below(14 if not mutate_only else 7)
     if c < 3:
@@ -651,12 +681,14 @@ def rand_cksum_script(r, sep=";", asep=":", mutate_only=False, lo=0, hi=5):
     return sep.join(steps) if steps else "-"
 
 
-def st_cksum(ctx, n, label="cksum"):
+def st_cksum(ctx, n, label="cksum", commas=False):
     r = ctx.rng(label)
     out = []
+    _ALG_EXTRA[:] = ALG_COMMA if commas else []
     for _ in range(n):
         s = rand_cksum_script(r, lo=1, hi=7)
         out.append(case("cksum " + s + ";text;iter", "cksum"))
+    _ALG_EXTRA[:] = []
     return out
 
 
@@ -768,7 +800,8 @@ def st_comb(ctx, n, label="comb"):
             for tup in itertools.product(["a", "/", ":", "@"], repeat=k):
                 out.append(case("comb %s %s" % (ident, hx("".join(tup))), "comb-exhaustive", ident=ident, s="".join(tup)))
     realistic = ["github.com/go-chi/chi/v5", "x/v2", "v2", "a/v10", "a/v1", "a/v02", "a/v2x", "@angular/cli", "@types/node/extra", "org.apache:commons",
-                 ":artifact", "g:g:a", "a/", "/a", "a:", "golang.org/x/text", "k8s.io/api/core/v1", "gopkg.in/yaml.v3"]
+                 ":artifact", "g:g:a", "a/", "/a", "a:", "golang.org/x/text", "k8s.io/api/core/v1", "gopkg.in/yaml.v3"] + ECO_NAMES \
+        + ["ns/" + x for x in ECO_NAMES[:12]] + ["g:" + x for x in ECO_NAMES[:12]]
     for ident in IDENTS:
         for s in realistic:
             out.append(case("comb %s %s" % (ident, hx(s)), "comb-realistic", ident=ident, s=s))
@@ -892,13 +925,44 @@ def st_cmp(ctx, n, shapes, label="cmp"):
              ("b/%s/%s/ns:%s" % (hx("t"), hx("b"), hx("a")), "b/%s/%s/-" % (hx("t"), hx("a/b")))]
     for a, b in fixed:
         out.append(case("cmp S %s %s" % (a, b), "cmp-fixed"))
+    # values the specification calls defaults: a PURL with and without such a qualifier / version are different PURLs
+    for ty_ in KNOWN_TYPES + ["t"]:
+        for k_, v_ in SPEC_DEFAULTS.get(ty_, []) + GENERIC_DEFAULTS:
+            for sh in shapes:
+                if sh == "P" and ty_ == "t":
+                    continue
+                base = "pkg:%s/ns/rake@13.0.6" % ty_
+                with_q = base + "?%s=%s" % (k_, urllib.parse.quote(v_, safe=""))
+                out.append(case("cmp %s p/%s p/%s" % (sh, hx(with_q), hx(base)), "cmp-default"))
+                out.append(case("cmp %s p/%s p/%s" % (sh, hx(with_q), hx(base + "?%s=other" % k_)), "cmp-default"))
+        for v_ in DEFAULT_VERSIONS:
+            sh = shapes[len(v_) % len(shapes)]
+            if not (sh == "P" and ty_ == "t"):
+                out.append(case("cmp %s p/%s p/%s" % (sh, hx("pkg:%s/ns/n@%s" % (ty_, urllib.parse.quote(v_, safe=""))), hx("pkg:%s/ns/n" % ty_)), "cmp-default"))
+    n += len(out)
     while len(out) < n:
         sh = r.pick(shapes)
         ty = flipcase(r, r.pick(KNOWN_TYPES)) if sh == "P" else None
         t = rand_tuple(r, ty=ty, plain=r.chance(1, 3))
         s1, _ = spell(r, t)
-        m = r.below(6)
-        if m >= 4 and t.quals and r.chance(1, 2):
+        m = r.below(8)
+        if m >= 6:
+            # exactly one optional component dropped: a different PURL
+            opts = [x for x in ("ver", "sub", "ns", "q") if {"ver": t.version is not None, "sub": bool(t.sub), "ns": bool(t.ns) and (ty or "").lower() != "maven",
+                                                           "q": bool(t.quals)}[x]]
+            if not opts:
+                t2 = Tuple(t.ty, list(t.ns), t.name, "1", list(t.quals), list(t.sub), t.cks)
+            else:
+                o = r.pick(opts)
+                q2 = list(t.quals)
+                cks2 = t.cks
+                if o == "q":
+                    k_, v_ = q2.pop(r.below(len(q2)))
+                    if v_ is None:
+                        cks2 = None
+                t2 = Tuple(t.ty, [] if o == "ns" else list(t.ns), t.name, None if o == "ver" else t.version, q2, [] if o == "sub" else list(t.sub), cks2)
+            s2, _ = spell(r, t2)
+        elif m >= 4 and t.quals and r.chance(1, 2):
             # one more qualifier whose key sorts after all the others (the qualifier lists are in a prefix relation),
             # or the last one dropped
             ks = sorted(k.lower() for k, _ in t.quals)
@@ -1008,6 +1072,26 @@ def inject(r, kind_wanted, idx_wanted, text_fn):
             return text_fn(raw, ctx)
         return spelled
     return hook, done
+
+
+def st_scheme_subst(shapes):
+    """every single-character substitution / deletion / insertion in the four characters of the scheme (all ASCII
+    characters and some others): only a letter-case variant of `pkg:` may be taken for the scheme"""
+    out = []
+    chars = [chr(i) for i in range(128)] + ["\u00ef", "\uff1a", "\u212a", "\u01c5", "\ua789", "\u2236"]
+    for rest in ("npm/foo@1.0", "t/n"):
+        strs = []
+        for pos in range(4):
+            for ch in chars:
+                strs.append("pkg:"[:pos] + ch + "pkg:"[pos + 1:] + rest)
+                strs.append("pkg:"[:pos] + ch + "pkg:"[pos:] + rest)
+            strs.append("pkg:"[:pos] + "pkg:"[pos + 1:] + rest)
+        for s_ in strs:
+            if s_[:4].lower() == "pkg:" and s_[:4].isascii():
+                continue        # the scheme itself, or a letter-case variant of it (not judged)
+            for sh in shapes:
+                out.append(case("parse %s %s" % (sh, hx(s_)), "scheme", s=s_, shape=sh, expect_err=("Pkg.Parse." if sh == "P" else "") + "UnsupportedUrlScheme"))
+    return out
 
 
 def fault_case(r, kind, shape):
